@@ -194,8 +194,8 @@ func (i Int32) ExponentiateInt32(other Int32) Int32 {
 		return 1
 	}
 	result := i
-	var j Int32
-	for j = 2; j <= other; j++ {
+	// count down: an upward counter of the same type wraps around when `other` is the type's maximum
+	for j := other; j >= 2; j-- {
 		result *= i
 	}
 	return result
